@@ -5,6 +5,8 @@
 -/
 import LtVerif.Model.Range
 import LtVerif.Proofs.Path
+set_option linter.unusedSimpArgs false
+set_option linter.unusedVariables false
 namespace LtVerif
 namespace Range
 open B Date
